@@ -327,7 +327,8 @@ Proof.
   match goal with |- context [match ?l with [] => _ | _ :: _ => _ end] => destruct l as [|a0 al] eqn:AL end.
   - intros X; inversion X; subst. apply btrans_refl.
   - intros X; inversion X; subst. apply free_ordinals_trans.
-    intros o Hin. apply in_map_iff in Hin. destruct Hin as (a & <- & Hin).
+    intros o Hin. change (In o (map (ordinal_of b) (a0 :: al))) in Hin.
+    apply in_map_iff in Hin. destruct Hin as (a & <- & Hin).
     rewrite <- AL in Hin. apply filter_In in Hin. destruct Hin as [_ OW].
     destruct (owner_of b (ordinal_of b a)) eqn:OO; [|discriminate].
     destruct (owner_of_Some _ _ _ OO) as (j & NJ & _). congruence.
